@@ -21,6 +21,15 @@ fn touch<T: core::fmt::Debug>(x: &T) {
     let s = format!("{:?}", x);
     std::hint::black_box(s.len());
 }
+/// an Err of a decoder: the projection of the error + what its conversion into the catch-all error says
+fn err_res<E: ToErrP + Clone + Into<err::FromSliceError> + core::fmt::Display>(e: E) -> Res {
+    touch_d(&e);
+    let mut r = Res::err(e.errp());
+    if !crate::errp::conv_keeps(&e) {
+        r.econv.push("from_slice_error".to_string());
+    }
+    r
+}
 fn touch_d<T: core::fmt::Display>(x: &T) {
     let s = format!("{}", x);
     std::hint::black_box(s.len());
@@ -31,10 +40,7 @@ fn a_sliced_eth(c: &Ctx, b: &[u8], _: u16) -> Res {
     touch(&x);
     match x {
         Ok(p) => sliced(c, &p),
-        Err(e) => {
-            touch_d(&e);
-            Res::err(e.errp())
-        }
+        Err(e) => err_res(e),
     }
 }
 fn a_sliced_sll(c: &Ctx, b: &[u8], _: u16) -> Res {
@@ -42,10 +48,7 @@ fn a_sliced_sll(c: &Ctx, b: &[u8], _: u16) -> Res {
     touch(&x);
     match x {
         Ok(p) => sliced(c, &p),
-        Err(e) => {
-            touch_d(&e);
-            Res::err(e.errp())
-        }
+        Err(e) => err_res(e),
     }
 }
 fn a_sliced_ether(c: &Ctx, b: &[u8], et: u16) -> Res {
@@ -53,10 +56,7 @@ fn a_sliced_ether(c: &Ctx, b: &[u8], et: u16) -> Res {
     touch(&x);
     match x {
         Ok(p) => sliced(c, &p),
-        Err(e) => {
-            touch_d(&e);
-            Res::err(e.errp())
-        }
+        Err(e) => err_res(e),
     }
 }
 fn a_sliced_ip(c: &Ctx, b: &[u8], _: u16) -> Res {
@@ -64,10 +64,7 @@ fn a_sliced_ip(c: &Ctx, b: &[u8], _: u16) -> Res {
     touch(&x);
     match x {
         Ok(p) => sliced(c, &p),
-        Err(e) => {
-            touch_d(&e);
-            Res::err(e.errp())
-        }
+        Err(e) => err_res(e),
     }
 }
 fn a_lax_sliced_eth(c: &Ctx, b: &[u8], _: u16) -> Res {
@@ -75,10 +72,7 @@ fn a_lax_sliced_eth(c: &Ctx, b: &[u8], _: u16) -> Res {
     touch(&x);
     match x {
         Ok(p) => lax_sliced(c, &p),
-        Err(e) => {
-            touch_d(&e);
-            Res::err(e.errp())
-        }
+        Err(e) => err_res(e),
     }
 }
 fn a_lax_sliced_ether(c: &Ctx, b: &[u8], et: u16) -> Res {
@@ -91,10 +85,7 @@ fn a_lax_sliced_ip(c: &Ctx, b: &[u8], _: u16) -> Res {
     touch(&x);
     match x {
         Ok(p) => lax_sliced(c, &p),
-        Err(e) => {
-            touch_d(&e);
-            Res::err(e.errp())
-        }
+        Err(e) => { touch_d(&e); Res::err(e.errp()) },
     }
 }
 fn a_headers_eth(c: &Ctx, b: &[u8], _: u16) -> Res {
@@ -102,7 +93,7 @@ fn a_headers_eth(c: &Ctx, b: &[u8], _: u16) -> Res {
     touch(&x);
     match x {
         Ok(p) => headers(c, &p),
-        Err(e) => Res::err(e.errp()),
+        Err(e) => err_res(e),
     }
 }
 fn a_headers_ether(c: &Ctx, b: &[u8], et: u16) -> Res {
@@ -110,7 +101,7 @@ fn a_headers_ether(c: &Ctx, b: &[u8], et: u16) -> Res {
     touch(&x);
     match x {
         Ok(p) => headers(c, &p),
-        Err(e) => Res::err(e.errp()),
+        Err(e) => err_res(e),
     }
 }
 fn a_headers_ip(c: &Ctx, b: &[u8], _: u16) -> Res {
@@ -118,7 +109,7 @@ fn a_headers_ip(c: &Ctx, b: &[u8], _: u16) -> Res {
     touch(&x);
     match x {
         Ok(p) => headers(c, &p),
-        Err(e) => Res::err(e.errp()),
+        Err(e) => err_res(e),
     }
 }
 fn a_lax_headers_eth(c: &Ctx, b: &[u8], _: u16) -> Res {
@@ -126,7 +117,7 @@ fn a_lax_headers_eth(c: &Ctx, b: &[u8], _: u16) -> Res {
     touch(&x);
     match x {
         Ok(p) => lax_headers(c, &p),
-        Err(e) => Res::err(e.errp()),
+        Err(e) => err_res(e),
     }
 }
 fn a_lax_headers_ether(c: &Ctx, b: &[u8], et: u16) -> Res {
@@ -139,10 +130,7 @@ fn a_lax_headers_ip(c: &Ctx, b: &[u8], _: u16) -> Res {
     touch(&x);
     match x {
         Ok(p) => lax_headers(c, &p),
-        Err(e) => {
-            touch_d(&e);
-            Res::err(e.errp())
-        }
+        Err(e) => { touch_d(&e); Res::err(e.errp()) },
     }
 }
 fn a_lax_headers_sll(c: &Ctx, b: &[u8], _: u16) -> Res {
@@ -150,10 +138,7 @@ fn a_lax_headers_sll(c: &Ctx, b: &[u8], _: u16) -> Res {
     touch(&x);
     match x {
         Ok(p) => lax_headers(c, &p),
-        Err(e) => {
-            touch_d(&e);
-            Res::err(e.errp())
-        }
+        Err(e) => err_res(e),
     }
 }
 
@@ -199,10 +184,7 @@ fn a_ipslice(c: &Ctx, b: &[u8], _: u16) -> Res {
     touch(&x);
     match x {
         Ok(s) => ip_slice_res(c, &s, b),
-        Err(e) => {
-            touch_d(&e);
-            Res::err(e.errp())
-        }
+        Err(e) => err_res(e),
     }
 }
 fn a_ipv4slice(c: &Ctx, b: &[u8], _: u16) -> Res {
@@ -214,10 +196,7 @@ fn a_ipv4slice(c: &Ctx, b: &[u8], _: u16) -> Res {
             ipv4_layers(c, &mut r, &i.header(), &i.extensions(), ip_pay(c, i.payload()));
             r
         }
-        Err(e) => {
-            touch_d(&e);
-            Res::err(e.errp())
-        }
+        Err(e) => err_res(e),
     }
 }
 fn a_ipv6slice(c: &Ctx, b: &[u8], _: u16) -> Res {
@@ -229,10 +208,7 @@ fn a_ipv6slice(c: &Ctx, b: &[u8], _: u16) -> Res {
             ipv6_layers(c, &mut r, &i.header(), i.extensions(), ip_pay(c, i.payload()));
             r
         }
-        Err(e) => {
-            touch_d(&e);
-            Res::err(e.errp())
-        }
+        Err(e) => err_res(e),
     }
 }
 fn lax_stop(r: &mut Res, st: &Option<(err::ipv6_exts::HeaderSliceError, err::Layer)>) {
@@ -250,10 +226,7 @@ fn a_laxipslice(c: &Ctx, b: &[u8], _: u16) -> Res {
             lax_stop(&mut r, &st);
             r
         }
-        Err(e) => {
-            touch_d(&e);
-            Res::err(e.errp())
-        }
+        Err(e) => { touch_d(&e); Res::err(e.errp()) },
     }
 }
 fn a_laxipv4slice(c: &Ctx, b: &[u8], _: u16) -> Res {
@@ -269,10 +242,7 @@ fn a_laxipv4slice(c: &Ctx, b: &[u8], _: u16) -> Res {
             }
             r
         }
-        Err(e) => {
-            touch_d(&e);
-            Res::err(e.errp())
-        }
+        Err(e) => err_res(e),
     }
 }
 fn a_laxipv6slice(c: &Ctx, b: &[u8], _: u16) -> Res {
@@ -285,10 +255,7 @@ fn a_laxipv6slice(c: &Ctx, b: &[u8], _: u16) -> Res {
             lax_stop(&mut r, &st);
             r
         }
-        Err(e) => {
-            touch_d(&e);
-            Res::err(e.errp())
-        }
+        Err(e) => err_res(e),
     }
 }
 fn a_iph(c: &Ctx, b: &[u8], _: u16) -> Res {
@@ -301,10 +268,7 @@ fn a_iph(c: &Ctx, b: &[u8], _: u16) -> Res {
             r.pay = ip_pay(c, &p);
             r
         }
-        Err(e) => {
-            touch_d(&e);
-            Res::err(e.errp())
-        }
+        Err(e) => err_res(e),
     }
 }
 fn a_iph4(c: &Ctx, b: &[u8], _: u16) -> Res {
@@ -317,10 +281,7 @@ fn a_iph4(c: &Ctx, b: &[u8], _: u16) -> Res {
             r.pay = ip_pay(c, &p);
             r
         }
-        Err(e) => {
-            touch_d(&e);
-            Res::err(e.errp())
-        }
+        Err(e) => err_res(e),
     }
 }
 fn a_iph6(c: &Ctx, b: &[u8], _: u16) -> Res {
@@ -333,10 +294,7 @@ fn a_iph6(c: &Ctx, b: &[u8], _: u16) -> Res {
             r.pay = ip_pay(c, &p);
             r
         }
-        Err(e) => {
-            touch_d(&e);
-            Res::err(e.errp())
-        }
+        Err(e) => err_res(e),
     }
 }
 fn a_iph_lax(c: &Ctx, b: &[u8], _: u16) -> Res {
@@ -353,10 +311,7 @@ fn a_iph_lax(c: &Ctx, b: &[u8], _: u16) -> Res {
             }
             r
         }
-        Err(e) => {
-            touch_d(&e);
-            Res::err(e.errp())
-        }
+        Err(e) => { touch_d(&e); Res::err(e.errp()) },
     }
 }
 fn a_iph4_lax(c: &Ctx, b: &[u8], _: u16) -> Res {
@@ -373,10 +328,7 @@ fn a_iph4_lax(c: &Ctx, b: &[u8], _: u16) -> Res {
             }
             r
         }
-        Err(e) => {
-            touch_d(&e);
-            Res::err(e.errp())
-        }
+        Err(e) => { touch_d(&e); Res::err(e.errp()) },
     }
 }
 fn a_iph6_lax(c: &Ctx, b: &[u8], _: u16) -> Res {
@@ -393,10 +345,7 @@ fn a_iph6_lax(c: &Ctx, b: &[u8], _: u16) -> Res {
             }
             r
         }
-        Err(e) => {
-            touch_d(&e);
-            Res::err(e.errp())
-        }
+        Err(e) => err_res(e),
     }
 }
 
